@@ -315,6 +315,10 @@ func (ssc *StatefulSetController) getPodsForStatefulSet(set *apps.StatefulSet, s
 		if fresh.UID != set.UID {
 			return nil, fmt.Errorf("original StatefulSet %v/%v is gone: got uid %v, wanted %v", set.Namespace, set.Name, fresh.UID, set.UID)
 		}
+		// the cached copy may predate a pause as well as a deletion
+		if helper.GetPausedReconcile(fresh) {
+			return nil, fmt.Errorf("StatefulSet %v/%v has been paused", set.Namespace, set.Name)
+		}
 		return fresh, nil
 	})
 
@@ -367,6 +371,9 @@ func (ssc *StatefulSetController) adoptOrphanRevisions(set *apps.StatefulSet) er
 			}
 			if fresh.UID != set.UID {
 				return nil, fmt.Errorf("original StatefulSet %v/%v is gone: got uid %v, wanted %v", set.Namespace, set.Name, fresh.UID, set.UID)
+			}
+			if helper.GetPausedReconcile(fresh) {
+				return nil, fmt.Errorf("StatefulSet %v/%v has been paused", set.Namespace, set.Name)
 			}
 			return fresh, nil
 		})(context.TODO()); canAdoptErr != nil {
